@@ -165,7 +165,7 @@ def main():
     # (b) session level: key types through MAC / decryption
     knobs = {"sessions": 6, "versions": ["v3"], "auths": ["md5", "sha1"], "privs": [None, "des", "aes"],
              "ops": ["get", "get_many", "getnext", "refresh"], "beh_weights": [100, 0, 0, 0], "key_types": ["password", "password", "master", "localized"]}
-    sj = [{"seed": a.seed * 77 + i, "steps": 120 if a.tier == "quick" else 2000, "aspects": ["mac", "priv", "auth_flag", "priv_flag", "panic", "outcome", "deaf"],
+    sj = [{"seed": a.seed * 77 + i, "steps": 120 if a.tier == "quick" else 2000, "aspects": ["mac", "priv", "auth_flag", "priv_flag", "panic", "outcome", "deaf", "create"],
            "knobs": dict(knobs, shared_pw=("sharedpass%d" % i) if i % 2 else None)} for i in range(8)]
     outs = runner.run_workers("vlib.scenario", "worker", sj, variant="rel", timeout=3000)
     s = c03.collect(chk, outs, "rel", PID)
